@@ -15,7 +15,11 @@ impl<'a> CelStackValue<'a> {
     pub fn into_value(self) -> CelResult<CelValue> {
         match self {
             CelStackValue::Value(val) => Ok(val),
-            _ => Err(CelError::internal("Expected value")),
+            // a method that is selected but not called is not a value: the operand fails like
+            // any other missing attribute (so `||`, has() and coalesce() can treat it as one)
+            CelStackValue::BoundCall { .. } => {
+                Ok(CelValue::from_err(CelError::attribute("obj", "<method>")))
+            }
         }
     }
 
@@ -43,10 +47,6 @@ impl<'a> Into<CelStackValue<'a>> for CelValue {
 impl<'a> TryInto<CelValue> for CelStackValue<'a> {
     type Error = CelError;
     fn try_into(self) -> Result<CelValue, Self::Error> {
-        if let CelStackValue::Value(val) = self {
-            Ok(val)
-        } else {
-            Err(CelError::internal("Expected value 2"))
-        }
+        self.into_value()
     }
 }
